@@ -63,7 +63,9 @@ TrCfg ==
   /\ Step("obs.rpc_cfg")
   /\ ncfg' = With(ncfg, N, [maxf |-> Get(Cur, "max_frame", None),
                              inDef |-> IF Has(Cur, "in_default_ms") THEN Cur.in_default_ms * 1000 ELSE NoT,
-                             outDef |-> IF Has(Cur, "out_default_ms") THEN Cur.out_default_ms * 1000 ELSE NoT])
+                             outDef |-> IF Has(Cur, "out_default_ms") THEN Cur.out_default_ms * 1000 ELSE NoT,
+                             \* mesh: every pair is connected once, the smaller node index dialed
+                             mesh |-> Has(Cur, "mesh") /\ Cur.mesh])
   /\ UNCHANGED <<calls, started, ended, gone, abandoned, result, faulty, pendIn, lastCall, stalled>>
 
 TrFault ==
@@ -136,6 +138,10 @@ TrAppStart ==
      /\ N = c.to
      /\ Cur.peer_seen = c.from                             \* ExtLocal
      /\ Cur.direction_seen = "Direction::Inbound"
+     \* the origin a handler is shown is the origin of the connection the request came in on
+     /\ (N \in DOMAIN ncfg /\ ncfg[N].mesh /\ Has(Cur, "origin_seen")) =>
+           Cur.origin_seen = (IF c.from < c.to THEN "ConnectionOrigin(Direction::Inbound)"
+                              ELSE "ConnectionOrigin(Direction::Outbound)")
      /\ Cur.route = c.route /\ Cur.len = c.len /\ Cur.digest = c.digest /\ Cur.hdigest = c.hdigest
      /\ ReqFits(c)                                         \* an oversized request is never delivered
      (* C12: a call the caller abandoned long ago is not handed to a handler any more *)
